@@ -21,6 +21,7 @@ import (
 	"sync"
 
 	"k8s.io/apimachinery/pkg/apis/meta/v1/unstructured"
+	"k8s.io/apimachinery/pkg/runtime/schema"
 	"k8s.io/apimachinery/pkg/types"
 	"sigs.k8s.io/controller-runtime/pkg/reconcile"
 
@@ -456,7 +457,7 @@ func (e *exec) xrPoint(label string, enumerate bool) {
 					f.fetch(x, k, out, fmt.Sprintf("%s fault %s@%d", label, out, k))
 					f.fetch(x, 0, sim.OK, fmt.Sprintf("%s retry after %s@%d", label, out, k))
 					e.c.Count("xr_fault_executions", 1)
-					e.c.Count("invariant_evaluations", int64(f.m.checks-e.m.checks))
+					e.c.Count("invariant_evaluations", int64(f.m.checks))
 					// carry violations found in the fork over to the reporting execution
 					for _, v := range f.m.viol {
 						dup := false
@@ -606,8 +607,8 @@ func runHistory(c *kit.Ctx, h history, idx int) {
 	}
 }
 
-func v1GVK() (gvk struct{ Group, Version, Kind string }) {
-	return struct{ Group, Version, Kind string }{xrGroup, "v1", xrKind}
+func v1GVK() schema.GroupVersionKind {
+	return schema.GroupVersionKind{Group: xrGroup, Version: "v1", Kind: xrKind}
 }
 
 func main() {
